@@ -171,6 +171,14 @@ func (u *evUniverse) runCase(c EvCase, hostile bool) *evOutcome {
 			out.Sig, out.Detail = "precondition:subbalance-underflow", fmt.Sprintf("op %q adapter=%q reference=%q", line, x, y)
 			break
 		}
+		if o.K == "finalise" && x == "panic" && strings.Contains(pmsg, "reserved for pending deletes") {
+			// a code equal to the store's deletion marker: the store refuses the record and Finalise
+			// fails the transaction (078c4d3); the reference has no such error.  A documented
+			// exclusion of the property's input class, not a divergence of what is read back.
+			out.DiffAt = len(out.Lines) - 1
+			out.Sig, out.Detail = "excluded:code-equals-deletion-marker", fmt.Sprintf("op %q adapter=%q (%s) reference=%q", line, x, pmsg, y)
+			break
+		}
 		if x == "panic" && y == "panic" {
 			out.Feat["both-panic:"+o.K]++
 			break // both refuse: the case ends here
